@@ -15,10 +15,14 @@ package server
 
 import (
 	"fmt"
+	"go/ast"
+	"go/parser"
+	"go/token"
 	"io"
 	"log/slog"
 	"math/big"
 	"net/netip"
+	"os"
 	"strings"
 	"testing"
 	"time"
@@ -487,4 +491,499 @@ func TestVerifC10Server(t *testing.T) {
 			o.sample(fmt.Sprintf("world %d: policies %v", wi, polNames))
 		}
 	}
+}
+
+// ---------- every call site that evaluates a policy hands it the same complete PolicyOptions ----------
+//
+// Sites: filterpath, sendSecondaryRoutes (route-server client with secondary-route),
+// policyEvaluatedAdjRibOutPaths (ListPath adj-out with policy evaluation), the import in propagateUpdate
+// (peer.handleUpdate, soft reset in, and — with a nil peer — paths added through the API),
+// policyAcceptedAdjRibInPaths (ListPath adj-in with policy evaluation).  Policies depend on each option
+// field: rpki-validation-result against a ROA table holding valid / invalid / not-found prefixes, next-hop
+// conditions and `set next-hop unchanged|self|peer-address`, neighbour sets.  The outcome of the real
+// site is compared with ApplyPolicy under hand-built DOCUMENTED options; a difference is classified by
+// the option field whose omission reproduces the site's outcome: policy-context-differs:<site>:<field>.
+
+type c10sDoc struct {
+	dir  table.PolicyDirection
+	id   string
+	opts *table.PolicyOptions
+}
+
+func c10sSiteShow(p *table.Path) string {
+	if p == nil || p.IsWithdraw {
+		return "reject"
+	}
+	return "accept " + c10sShow(p)
+}
+
+// static premise, re-extracted from the source on every run: every call of ApplyPolicy in pkg/server
+// passes options whose Validate field was assigned earlier in the same function (an assignment
+// `x.Validate = …` or a composite literal with a Validate key bound to x, textually before the call —
+// position order inside the enclosing top-level function stands in for dominance).
+func c10sValidatePremise(t *testing.T, o *vOut) {
+	fset := token.NewFileSet()
+	ents, err := os.ReadDir(".")
+	if err != nil {
+		t.Fatal(err)
+	}
+	calls := 0
+	for _, e := range ents {
+		name := e.Name()
+		if !strings.HasSuffix(name, ".go") || strings.HasSuffix(name, "_test.go") {
+			continue
+		}
+		f, err := parser.ParseFile(fset, name, nil, 0)
+		if err != nil {
+			t.Fatalf("C10 premise: %v", err)
+		}
+		for _, d := range f.Decls {
+			fd, ok := d.(*ast.FuncDecl)
+			if !ok || fd.Body == nil {
+				continue
+			}
+			// positions at which an identifier receives a Validate
+			assigned := map[string][]token.Pos{}
+			ast.Inspect(fd.Body, func(n ast.Node) bool {
+				as, ok := n.(*ast.AssignStmt)
+				if !ok {
+					return true
+				}
+				for i, lhs := range as.Lhs {
+					if sel, ok := lhs.(*ast.SelectorExpr); ok && sel.Sel.Name == "Validate" {
+						if id, ok := sel.X.(*ast.Ident); ok {
+							assigned[id.Name] = append(assigned[id.Name], as.Pos())
+						}
+					}
+					if id, ok := lhs.(*ast.Ident); ok && i < len(as.Rhs) {
+						rhs := as.Rhs[i]
+						if u, ok := rhs.(*ast.UnaryExpr); ok {
+							rhs = u.X
+						}
+						if cl, ok := rhs.(*ast.CompositeLit); ok {
+							for _, el := range cl.Elts {
+								if kv, ok := el.(*ast.KeyValueExpr); ok {
+									if k, ok := kv.Key.(*ast.Ident); ok && k.Name == "Validate" {
+										assigned[id.Name] = append(assigned[id.Name], as.Pos())
+									}
+								}
+							}
+						}
+					}
+				}
+				return true
+			})
+			ast.Inspect(fd.Body, func(n ast.Node) bool {
+				call, ok := n.(*ast.CallExpr)
+				if !ok {
+					return true
+				}
+				sel, ok := call.Fun.(*ast.SelectorExpr)
+				if !ok || sel.Sel.Name != "ApplyPolicy" || len(call.Args) != 4 {
+					return true
+				}
+				calls++
+				arg := "?"
+				if id, ok := call.Args[3].(*ast.Ident); ok {
+					arg = id.Name
+				}
+				found := false
+				for _, p := range assigned[arg] {
+					if p < call.Pos() {
+						found = true
+					}
+				}
+				o.stat("premise_apply_policy_calls", 1)
+				if !found {
+					o.fail("policy-call-site-without-validate:"+fd.Name.Name, map[string]any{"function": fd.Name.Name, "options_argument": arg,
+						"position": fset.Position(call.Pos()).String(),
+						"premise": "every ApplyPolicy call in pkg/server passes options whose Validate was assigned earlier in the function"})
+				}
+				return true
+			})
+		}
+	}
+	if calls < 5 {
+		o.fail("policy-call-site-premise-extraction-broken", fmt.Sprintf("only %d ApplyPolicy calls found in pkg/server", calls))
+	}
+}
+
+func TestVerifC10Sites(t *testing.T) {
+	o := vOpen(t)
+	defer o.close()
+	c10sValidatePremise(t, o)
+	r := &vRand{s: o.seed*32452843 + 10}
+	logger := slog.New(slog.NewTextHandler(io.Discard, nil))
+	g := &oc.Global{}
+	g.Config.As = 65000
+	g.Config.RouterId = netip.MustParseAddr("10.255.0.1")
+	fams := []bgp.Family{bgp.RF_IPv4_UC}
+
+	nWorlds := 250
+	if o.thorough {
+		nWorlds = 2000
+	}
+	for wi := 0; wi < nWorlds; wi++ {
+		s := NewBgpServer()
+		s.globalRib = table.NewTableManager(logger, fams)
+		s.rsRib = table.NewTableManager(logger, fams)
+		// ROAs: 10.100.0.0/16-24 AS 65031 (valid for that origin, invalid for another), 10.101.0.0/16-16 AS 65031
+		// (a /24 inside is invalid by length), nothing for 10.102.0.0/16 (not found)
+		s.roaTable.Add(table.NewROA(bgp.AFI_IP, []byte{10, 100, 0, 0}, 16, 24, 65031, "rpki"))
+		s.roaTable.Add(table.NewROA(bgp.AFI_IP, []byte{10, 101, 0, 0}, 16, 16, 65031, "rpki"))
+
+		mkPeer := func(kind, addr string, as uint32, local string, rs bool) *c10sPeer {
+			n := &oc.Neighbor{}
+			n.Config.NeighborAddress = netip.MustParseAddr(addr)
+			n.Config.PeerAs = as
+			n.RouteServer.Config.RouteServerClient = rs
+			n.RouteServer.Config.SecondaryRoute = rs
+			n.AfiSafis = []oc.AfiSafi{{Config: oc.AfiSafiConfig{AfiSafiName: oc.AFI_SAFI_TYPE_IPV4_UNICAST, Enabled: true}}}
+			if err := oc.SetDefaultNeighborConfigValues(n, nil, g); err != nil {
+				t.Fatal(err)
+			}
+			n.State.RemoteRouterId = netip.MustParseAddr(addr)
+			rib := s.globalRib
+			if rs {
+				rib = s.rsRib
+			}
+			p := newPeer(g, n, bgp.BGP_FSM_ESTABLISHED, rib, s.policy, logger)
+			p.fsm.familyMap.Store(map[bgp.Family]bgp.BGPAddPathMode{bgp.RF_IPv4_UC: bgp.BGP_ADD_PATH_NONE})
+			info := table.NewPeerInfo(g, n, n.State.PeerAs, n.Config.LocalAs, n.State.RemoteRouterId, g.Config.RouterId, netip.MustParseAddr(addr), netip.MustParseAddr(local))
+			p.peerInfo.Store(info)
+			return &c10sPeer{kind, kind, p, info}
+		}
+		peers := []*c10sPeer{
+			mkPeer("ebgp", "10.0.0.11", 65011, "10.0.0.1", false),
+			mkPeer("ibgp", "10.0.0.12", 65000, "10.0.0.1", false),
+			mkPeer("rs-client", "10.0.0.13", 65013, "10.0.0.1", true),
+		}
+		// the policy: 1-3 statements, each depending on option fields
+		cfg := &oc.RoutingPolicy{}
+		var nsList []string
+		for _, p := range peers {
+			if r.chance(45) {
+				nsList = append(nsList, p.info.Address.String())
+			}
+		}
+		nsList = append(nsList, "10.0.0.21")
+		cfg.DefinedSets.NeighborSets = []oc.NeighborSet{{NeighborSetName: "ns1", NeighborInfoList: nsList}}
+		pd := oc.PolicyDefinition{Name: "pol"}
+		addr := func() netip.Addr { return netip.MustParseAddr(c10sAddrs[r.intn(len(c10sAddrs))]) }
+		for j, ns := 0, 1+r.intn(3); j < ns; j++ {
+			st := oc.Statement{Name: fmt.Sprintf("st%d", j)}
+			focus := r.intn(3)
+			if focus == 0 || r.chance(25) {
+				st.Conditions.BgpConditions.RpkiValidationResult = []oc.RpkiValidationResultType{oc.RPKI_VALIDATION_RESULT_TYPE_VALID, oc.RPKI_VALIDATION_RESULT_TYPE_INVALID, oc.RPKI_VALIDATION_RESULT_TYPE_NOT_FOUND}[r.intn(3)]
+				o.stat("cond_rpki", 1)
+			}
+			if focus == 1 || r.chance(20) {
+				if r.chance(60) {
+					st.Conditions.BgpConditions.NextHopInList = []netip.Addr{addr(), addr()}
+					o.stat("cond_next_hop", 1)
+				}
+				if r.chance(60) {
+					st.Actions.BgpActions.SetNextHop = []oc.BgpNextHopType{"self", "peer-address", "unchanged", "unchanged"}[r.intn(4)]
+					o.stat("act_next_hop", 1)
+				}
+			}
+			if focus == 2 || r.chance(20) {
+				st.Conditions.MatchNeighborSet = oc.MatchNeighborSet{NeighborSet: "ns1", MatchSetOptions: []oc.MatchSetOptionsRestrictedType{"any", "invert"}[r.intn(2)]}
+				o.stat("cond_neighbor", 1)
+			}
+			if r.chance(25) {
+				st.Actions.BgpActions.SetMed = oc.BgpSetMedType(fmt.Sprint(r.pick(7, 77)))
+			}
+			st.Actions.RouteDisposition = []oc.RouteDisposition{oc.ROUTE_DISPOSITION_NONE, oc.ROUTE_DISPOSITION_ACCEPT_ROUTE, oc.ROUTE_DISPOSITION_REJECT_ROUTE, oc.ROUTE_DISPOSITION_REJECT_ROUTE}[r.intn(4)]
+			pd.Statements = append(pd.Statements, st)
+		}
+		cfg.PolicyDefinitions = []oc.PolicyDefinition{pd}
+		ap := map[string]oc.ApplyPolicy{}
+		for _, id := range []string{table.GLOBAL_RIB_NAME, "10.0.0.13"} {
+			a := oc.ApplyPolicy{}
+			a.Config.ExportPolicyList, a.Config.ImportPolicyList = []string{"pol"}, []string{"pol"}
+			d := []oc.DefaultPolicyType{oc.DEFAULT_POLICY_TYPE_ACCEPT_ROUTE, oc.DEFAULT_POLICY_TYPE_ACCEPT_ROUTE, oc.DEFAULT_POLICY_TYPE_REJECT_ROUTE}[r.intn(3)]
+			a.Config.DefaultExportPolicy, a.Config.DefaultImportPolicy = d, d
+			ap[id] = a
+		}
+		if err := s.policy.Reset(cfg, ap); err != nil {
+			t.Fatalf("C10 sites: %v", err)
+		}
+
+		sources := []*table.PeerInfo{
+			{PeerType: oc.PEER_TYPE_EXTERNAL, AS: 65021, LocalAS: 65000, Address: netip.MustParseAddr("10.0.0.21"), ID: netip.MustParseAddr("10.0.0.21"), LocalID: g.Config.RouterId},
+			{PeerType: oc.PEER_TYPE_EXTERNAL, AS: 65023, LocalAS: 65000, Address: netip.MustParseAddr("10.0.0.23"), ID: netip.MustParseAddr("10.0.0.23"), LocalID: g.Config.RouterId, RouteServerClient: true},
+			{PeerType: oc.PEER_TYPE_INTERNAL, AS: 65000, LocalAS: 65000, Address: netip.MustParseAddr("10.0.0.22"), ID: netip.MustParseAddr("10.0.0.22"), LocalID: g.Config.RouterId},
+		}
+		npfx := 0
+		mkPath := func(src *table.PeerInfo) (*table.Path, netip.Addr) {
+			npfx++
+			// rpki state by construction: third octet 100 valid-or-invalid by origin AS, 101 invalid by length, 102 not found
+			net3 := r.pick(100, 100, 101, 102)
+			nlri, _ := bgp.NewIPAddrPrefix(netip.MustParsePrefix(fmt.Sprintf("10.%d.%d.0/24", net3, npfx%250)))
+			origin := uint32(r.pick(65031, 65031, 65032))
+			asl := []uint32{}
+			if src.AS != 65000 {
+				asl = append(asl, src.AS)
+			}
+			asl = append(asl, origin)
+			orig := addr()
+			if r.chance(60) && src.Address.IsValid() {
+				orig = src.Address
+			}
+			nh, _ := bgp.NewPathAttributeNextHop(orig)
+			attrs := []bgp.PathAttributeInterface{bgp.NewPathAttributeOrigin(0),
+				bgp.NewPathAttributeAsPath([]bgp.AsPathParamInterface{bgp.NewAs4PathParam(bgp.BGP_ASPATH_ATTR_TYPE_SEQ, asl)}), nh}
+			if r.chance(40) {
+				attrs = append(attrs, bgp.NewPathAttributeMultiExitDisc(uint32(r.pick(10, 100))))
+			}
+			return table.NewPath(bgp.RF_IPv4_UC, src, bgp.PathNLRI{NLRI: nlri}, false, attrs, time.Unix(1700000000, 0), false), orig
+		}
+		// documented evaluation, and the field whose omission explains a differing site outcome
+		docEval := func(d c10sDoc, p *table.Path, post func(*table.Path) *table.Path) string {
+			return c10sSiteShow(post(s.policy.ApplyPolicy(d.id, d.dir, p, d.opts)))
+		}
+		judge := func(site string, tp *c10sPeer, d c10sDoc, p *table.Path, post func(*table.Path) *table.Path, got string, what string) {
+			want := docEval(d, p, post)
+			o.stat("site_"+site+"_"+strings.Fields(want)[0], 1)
+			if got == want {
+				return
+			}
+			var fields []string
+			for _, f := range []string{"validate", "old-next-hop", "info"} {
+				v := *d.opts
+				switch f {
+				case "validate":
+					v.Validate = nil
+				case "old-next-hop":
+					v.OldNextHop = netip.Addr{}
+				case "info":
+					v.Info = nil
+				}
+				if docEval(c10sDoc{d.dir, d.id, &v}, p, post) == got {
+					fields = append(fields, f)
+				}
+			}
+			field := "unknown"
+			if len(fields) > 0 {
+				field = strings.Join(fields, "+")
+			}
+			kindOf := "api"
+			if tp != nil {
+				kindOf = tp.kind
+			}
+			o.fail("policy-context-differs:"+site+":"+field, map[string]any{"site": site, "peer": kindOf, "route": what, "policy": cfg.PolicyDefinitions,
+				"site_outcome": got, "documented_outcome": want})
+		}
+		ident := func(p *table.Path) *table.Path { return p }
+		exportDoc := func(tp *c10sPeer, path *table.Path, orig netip.Addr) c10sDoc {
+			return c10sDoc{table.POLICY_DIRECTION_EXPORT, tp.peer.TableID(), &table.PolicyOptions{Info: tp.info, OldNextHop: orig, Validate: s.roaTable.Validate}}
+		}
+		importDoc := func(tp *c10sPeer) c10sDoc {
+			d := c10sDoc{table.POLICY_DIRECTION_IMPORT, table.GLOBAL_RIB_NAME, &table.PolicyOptions{Validate: s.roaTable.Validate}}
+			if tp != nil {
+				d.id = tp.peer.TableID()
+				if tp.kind != "rs-client" {
+					d.opts.Info = tp.info
+				}
+			}
+			return d
+		}
+
+		for _, tp := range peers {
+			post := func(p *table.Path) *table.Path { return s.postFilterpath(tp.peer, p) }
+			// A. filterpath
+			for k := 0; k < 3; k++ {
+				path, orig := mkPath(sources[r.intn(len(sources))])
+				pre, _, stop := s.prePolicyFilterpath(tp.peer, path, nil)
+				if stop {
+					continue
+				}
+				got := c10sSiteShow(s.filterpath(tp.peer, path, nil))
+				judge("filterpath", tp, exportDoc(tp, path, orig), pre, post, got, c10sRouteLine(k, path))
+			}
+			// B. sendSecondaryRoutes: the first acceptable path of the destination's list
+			if tp.kind == "rs-client" {
+				for k := 0; k < 3; k++ {
+					var known []*table.Path
+					var origs []netip.Addr
+					base, o0 := mkPath(sources[0])
+					known, origs = append(known, base), append(origs, o0)
+					for _, src := range sources[1:] {
+						if r.chance(70) {
+							// another path for the same prefix
+							p2, o2 := mkPath(src)
+							p2 = table.NewPath(bgp.RF_IPv4_UC, src, bgp.PathNLRI{NLRI: base.GetNlri()}, false, p2.GetPathAttrs(), time.Unix(1700000000, 0), false)
+							known, origs = append(known, p2), append(origs, o2)
+						}
+					}
+					paths, _ := s.sendSecondaryRoutes(tp.peer, nil, []*table.Update{{KnownPathList: known}})
+					got := "reject"
+					if len(paths) > 0 {
+						got = c10sSiteShow(paths[0])
+					}
+					// documented: the first path of the list the export policy accepts
+					want, wi2 := "reject", -1
+					for i, kp := range known {
+						pre, _, stop := s.prePolicyFilterpath(tp.peer, kp, nil)
+						if stop {
+							continue
+						}
+						if w := docEval(exportDoc(tp, kp, origs[i]), pre, post); w != "reject" {
+							want, wi2 = w, i
+							break
+						}
+					}
+					o.stat("site_secondary_"+strings.Fields(want)[0], 1)
+					if wi2 > 0 {
+						o.stat("site_secondary_fallback_chosen", 1)
+					}
+					if got != want {
+						// name the field on the first path of the list
+						field := "unknown"
+						if pre, _, stop := s.prePolicyFilterpath(tp.peer, known[0], nil); !stop {
+							d := exportDoc(tp, known[0], origs[0])
+							first := "reject"
+							if len(paths) > 0 && paths[0].GetSource() == known[0].GetSource() {
+								first = got
+							}
+							for _, f := range []string{"validate", "old-next-hop", "info"} {
+								v := *d.opts
+								switch f {
+								case "validate":
+									v.Validate = nil
+								case "old-next-hop":
+									v.OldNextHop = netip.Addr{}
+								case "info":
+									v.Info = nil
+								}
+								if docEval(c10sDoc{d.dir, d.id, &v}, pre, post) == first && docEval(d, pre, post) != first {
+									field = f
+									break
+								}
+							}
+						}
+						o.fail("policy-context-differs:sendSecondaryRoutes:"+field, map[string]any{"peer": tp.kind, "known_paths": len(known),
+							"first_route": c10sRouteLine(0, known[0]), "policy": cfg.PolicyDefinitions, "site_outcome": got, "documented_outcome": want,
+							"documented_choice_index": wi2})
+					}
+				}
+			}
+			// C. policyEvaluatedAdjRibOutPaths over the best paths of the peer's table
+			{
+				type ent struct {
+					p    *table.Path
+					orig netip.Addr
+				}
+				var installed []ent
+				for k := 0; k < 4; k++ {
+					p, og := mkPath(sources[r.intn(len(sources))])
+					tp.peer.localRib.Update(p)
+					installed = append(installed, ent{p, og})
+				}
+				filtered := map[table.PathLocalKey]table.FilteredType{}
+				s.policyEvaluatedAdjRibOutPaths(tp.peer, bgp.RF_IPv4_UC, filtered)
+				best := map[table.PathLocalKey]bool{}
+				for _, bp := range s.getPossibleBest(tp.peer, bgp.RF_IPv4_UC) {
+					best[bp.GetLocalKey()] = true
+				}
+				for _, e := range installed {
+					if !best[e.p.GetLocalKey()] {
+						continue
+					}
+					pre, _, stop := s.prePolicyFilterpath(tp.peer, e.p, nil)
+					if stop {
+						continue
+					}
+					got := "accept"
+					if filtered[e.p.GetLocalKey()]&table.PolicyFiltered != 0 {
+						got = "reject"
+					}
+					verdictOnly := func(p *table.Path) *table.Path { return p }
+					d := exportDoc(tp, e.p, e.orig)
+					want := strings.Fields(docEval(d, pre, verdictOnly))[0]
+					o.stat("site_adj_out_list_"+want, 1)
+					if got != want {
+						field := "unknown"
+						for _, f := range []string{"validate", "old-next-hop", "info"} {
+							v := *d.opts
+							switch f {
+							case "validate":
+								v.Validate = nil
+							case "old-next-hop":
+								v.OldNextHop = netip.Addr{}
+							case "info":
+								v.Info = nil
+							}
+							if strings.Fields(docEval(c10sDoc{d.dir, d.id, &v}, pre, verdictOnly))[0] == got {
+								field = f
+								break
+							}
+						}
+						o.fail("policy-context-differs:policyEvaluatedAdjRibOutPaths:"+field, map[string]any{"peer": tp.kind, "route": c10sRouteLine(0, e.p),
+							"policy": cfg.PolicyDefinitions, "site_outcome": got, "documented_outcome": want})
+					}
+				}
+			}
+			// D. import (propagateUpdate) of routes received from this peer, and E. the adj-in listing with policy
+			{
+				var recv []*table.Path
+				for k := 0; k < 3; k++ {
+					p, _ := mkPath(tp.info)
+					recv = append(recv, p)
+				}
+				tp.peer.adjRibIn.Update(recv)
+				s.propagateUpdate(tp.peer, recv)
+				rib := s.globalRib
+				if tp.kind == "rs-client" {
+					rib = s.rsRib
+				}
+				for k, p := range recv {
+					var inRib *table.Path
+					for _, x := range rib.GetPathListWithSource(table.GLOBAL_RIB_NAME, fams, tp.info) {
+						if x.GetNlri().String() == p.GetNlri().String() {
+							inRib = x
+						}
+					}
+					judge("import", tp, importDoc(tp), p, ident, c10sSiteShow(inRib), c10sRouteLine(k, p))
+				}
+				filtered := map[table.PathLocalKey]table.FilteredType{}
+				acc := s.policyAcceptedAdjRibInPaths(tp.peer, bgp.RF_IPv4_UC, filtered)
+				for k, p := range recv {
+					var out *table.Path
+					for _, x := range acc {
+						if x.GetNlri().String() == p.GetNlri().String() {
+							out = x
+						}
+					}
+					got := c10sSiteShow(out)
+					if filtered[p.GetLocalKey()]&table.PolicyFiltered != 0 {
+						got = "reject"
+					}
+					judge("policyAcceptedAdjRibInPaths", tp, importDoc(tp), p, ident, got, c10sRouteLine(k, p))
+				}
+			}
+		}
+		// F. paths added through the API: propagateUpdate with a nil peer
+		{
+			local := &table.PeerInfo{AS: 65000, LocalAS: 65000, LocalID: g.Config.RouterId}
+			var added []*table.Path
+			for k := 0; k < 3; k++ {
+				p, _ := mkPath(local)
+				added = append(added, p)
+			}
+			s.propagateUpdate(nil, added)
+			for k, p := range added {
+				var inRib *table.Path
+				for _, x := range s.globalRib.GetPathListWithSource(table.GLOBAL_RIB_NAME, fams, local) {
+					if x.GetNlri().String() == p.GetNlri().String() {
+						inRib = x
+					}
+				}
+				judge("import-api-path", nil, importDoc(nil), p, ident, c10sSiteShow(inRib), c10sRouteLine(k, p))
+			}
+		}
+		o.stat("worlds", 1)
+	}
+	o.sample("sites: filterpath, sendSecondaryRoutes, policyEvaluatedAdjRibOutPaths, import, policyAcceptedAdjRibInPaths, import-api-path")
 }
